@@ -60,7 +60,7 @@ impl Monitor for C15 {
 		"C15"
 	}
 	fn rule(&self) -> String {
-		"Frame values are built directly from id vectors (public fields) and Frame::rollbacks is compared with the definition (row marked iff an earlier / later row has the same id; exactly one unmarked row per distinct id). Exhaustive: every sequence of length 0..=7 over the alphabet {-123,-122,-121,-120} (quick: length <= 6). Random: lengths up to 20000 with monotone/rollback/repeat/gap patterns, ids from -123 to 2^24, and sequences touching the boundary ids i32::MAX-124..=i32::MAX. distinct = pattern classes x length classes.".into()
+		"Frame values are built directly from id vectors (public fields) and Frame::rollbacks is compared with the definition (row marked iff an earlier / later row has the same id; exactly one unmarked row per distinct id). Exhaustive: every sequence of length 0..=7 over the alphabet {-123,-122,-121,-120} (quick: length <= 6). Random: lengths up to 20000 with monotone/rollback/repeat/gap/shuffled patterns, ids from -123 to 2^24, games whose ids start at 70 000 .. 2^30 with rollbacks (sparse, high ids), and sequences of up to 300 rows touching the boundary ids i32::MAX-124..=i32::MAX. distinct = pattern classes x length classes.".into()
 	}
 	fn n_cases(&self, ctx: &Ctx) -> usize {
 		ctx.tier.pick(64 + 200, 256 + 4000)
@@ -99,7 +99,7 @@ impl Monitor for C15 {
 			return out;
 		}
 		let mut rng = Rng::derive(ctx.seed, idx as u64);
-		let pattern = (idx - nex) % 6;
+		let pattern = (idx - nex) % 8;
 		let n = match rng.below(4) {
 			0 => rng.range(0, 8),
 			1 => rng.range(8, 200),
@@ -142,11 +142,32 @@ impl Monitor for C15 {
 				name = "random-wide";
 				ids.extend((0..n.min(400)).map(|_| -123 + rng.below(1 << 24) as i32));
 			}
+			5 => {
+				name = "high-base-rollbacks";
+				// sparse/high ids (a game whose ids start far from -123) with netplay-style rollbacks
+				let mut id = *rng.pick(&[70_000i32, 200_000, 1 << 24, 1 << 30, i32::MAX - 40_000]);
+				let m = n.min(3000).max(30);
+				while ids.len() < m {
+					ids.push(id);
+					if rng.chance(1, 4) {
+						id -= rng.range(0, 7) as i32;
+					} else {
+						id += 1;
+					}
+				}
+			}
+			6 => {
+				name = "shuffled-repeats";
+				let base = *rng.pick(&[-123i32, 100_000, i32::MAX - 5_000]);
+				let m = n.min(2000).max(25);
+				ids.extend((0..m).map(|_| base + rng.below(m / 2 + 1) as i32));
+			}
 			_ => {
 				name = "top-boundary";
 				// ids near i32::MAX: "ids at least -123" has no upper bound
 				let base = i32::MAX - 124;
-				ids.extend((0..n.min(12)).map(|_| base + rng.below(125) as i32));
+				let m = if rng.chance(1, 2) { n.min(12) } else { n.min(300).max(25) };
+				ids.extend((0..m).map(|_| base + rng.below(125) as i32));
 			}
 		}
 		let lc = match ids.len() {
